@@ -13,7 +13,7 @@ RULE = ('random subject trees of depth <= 3 with 1-4 root subjects in Algebra(p,
         'signatures), multivector layouts {sparse, canonical, binary, permuted, sparse-permuted, list-of-arrays, 2-D ndarray, 1-D ndarray, '
         'integer ndarray}; 1 payload case + 1 decode case + 2 draggable cases per tree, key2idx probes, drag write-backs (direct and through '
         'the traitlet).  Non-trivial = the tree contains a multivector; distinct = distinct (algebra, tree).')
-TRUSTED = ['Model/Graph.v (hand-written after graph.py and graph.js) tied by this correspondence', 'graph.js is re-modelled from its source text (ganja.js itself is fetched from the network by the front end and is not available)',
+TRUSTED = ['graph.js: its decode / toElement helpers are EXECUTED by node on every payload and compared with the hand-made mirror (tools/jsdecode.js); only ganja.js and the widget transport stay unexecuted', 'Model/Graph.v (hand-written after graph.py and graph.js) tied by this correspondence', 'graph.js is re-modelled from its source text (ganja.js itself is fetched from the network by the front end and is not available)',
            'traitlets/anywidget transport, JSON serialisation, ndarray.tobytes are not modelled (values compared as numbers)']
 ASSUMPTIONS = ['one trailing array dimension', 'float coefficients compared as the integers they hold']
 
@@ -29,6 +29,7 @@ def run(R, tier):
         pool.update({'A4': Algebra(4), 'S31': Algebra(3, 1), 'N': Algebra(signature=[0, -1, 1]), 'Z2': Algebra(0, 0, 2)})
     G.set_algebras(pool)
     enc, dec, k2i, inp, idx = [], [], [], [], []
+    js_jobs = []          # payloads decoded a second time by the REAL helpers of kingdon/graph.js, run by node
 
     def viol(clause, detail, **rep):
         R.violation({'clause': clause}, rep, f'{clause}: {detail}')
@@ -69,6 +70,7 @@ def run(R, tier):
                         'show': f'graph_subjects {canc} {rawc}', 'meta': {'what': 'payload', 'algebra': an, 'tree': str(raw), 'impl': str(subjects)}})
             key2idx = w.key2idx
             d = G.js_decode(subjects, key2idx)
+            js_jobs.append((subjects, dict(key2idx), G.py_decoded_to_json(d), an, str(raw)))
             dec.append({'check': f'list_eqb elem_eqb (map (decode {canc}) (graph_subjects {canc} {rawc})) {G.clist([G.elem_to_coq(e) for e in d])}',
                         'meta': {'what': 'decode', 'algebra': an, 'tree': str(raw), 'impl': str(d)}})
         except (AssertionError, ValueError) as e:
@@ -136,6 +138,25 @@ def run(R, tier):
                 viol('drag-writeback', f'after reporting {new} for the multivector with keys {t[2]} in {an} the front end would be sent {d}, expected {want}',
                      algebra=an, mv=str(t), reported=new)
             cur = d
+    # the front end's own code (toElement / decode extracted from graph.js, executed by node) must decode every payload to
+    # what the hand-made mirror of it (tools/graphlib.py, Model/Graph.v) computed: ties the trusted re-modelling to the JS
+    real = G.node_decode([(sj, k2) for sj, k2, _, _, _ in js_jobs], kv.REPO) if js_jobs else []
+    if real is None:
+        R.notes.append('node is not available: graph.js was not executed, the hand-made mirror of decode/toElement is trusted (and pinned)')
+    else:
+        def num_eq(a, b):
+            if isinstance(a, dict) and isinstance(b, dict):
+                return set(a) == set(b) and all(num_eq(a[k], b[k]) for k in a)
+            if isinstance(a, list) and isinstance(b, list):
+                return len(a) == len(b) and all(num_eq(x, y) for x, y in zip(a, b))
+            if isinstance(a, (int, float)) and isinstance(b, (int, float)):
+                return float(a) == float(b)
+            return a == b
+        for (sj, k2, mirror, an, tree), got in zip(js_jobs, real):
+            R.count('graph.js executed by node'); R.case(('js', an, tree), True)
+            if 'ok' not in got or not num_eq(got['ok'], mirror):
+                viol('frontend-decode', f'kingdon/graph.js (run by node) decodes the payload of {tree[:200]} in {an} to {str(got)[:200]}, '
+                                        f'the mirror of it the model is built on gives {str(mirror)[:200]}', algebra=an, tree=tree)
     cases = enc + dec + k2i + inp + idx
     bad, shown = kv.run_cases('C20', cases, imports='Model.Util Model.Graph')
     for i in bad:
